@@ -13,7 +13,7 @@ ASSUMPTIONS = ["BIE1 per Electrum: S = compressed(a*B); SHA-512(S) -> iv|kE|kM; 
 NSHARDS = {"quick": 32, "thorough": 64}
 BUDGET_S = {"quick": 200, "thorough": 1800}
 MIN_HITS = {
-    'quick': {"enc": 336, "exclude": 74, "ephemeral": 64, "flip": 241929, "flip_pub": 69036, "flip_mac": 85762, "flip_body": 76411, "wrong_key": 336, "len>=16384": 8},
+    'quick': {"enc": 368, "exclude": 90, "ephemeral": 64, "flip": 262989, "flip_pub": 73260, "flip_mac": 93954, "flip_body": 84031, "wrong_key": 368, "len>=16384": 8},
     'thorough': {"enc": 15504, "exclude": 840, "ephemeral": 4608, "flip": 11715673, "wrong_key": 15504, "len>=16384": 48},
 }
 EDGE = [1, 2, 3, (ec.N - 1) // 2, (ec.N + 1) // 2, ec.N - 2, ec.N - 1]
